@@ -359,7 +359,7 @@ def report(sm, spec, viols, acc, profile=""):
         if mode != "env":
             if so not in _names(judge(Simp("env"), m)[1]):
                 tag = "static:"
-        fp = "%s%s|%s" % (tag, key, U.shape(m))
+        fp = "%s%s|%s" % (tag, key, U.shape(m, 1))
         case = {"spec": tj(m), "mode": mode, "profile": profile, "found_as": tj(spec)}
         case.update(detail)
         acc.violation(fp, "%s: e = %s; %s" % (mode, U.label(m), what), case)
